@@ -1,109 +1,120 @@
 /-
   C05 — HTTP/2: every emitted frame is legal for the connection and stream state.
-  Property theorems over Model/H2.lean (frames) and Model/H2Reader.lean (octets, read segments);
-  helper lemmas in Proofs/H2.lean and Proofs/H2Reader.lean.
+  Property theorems over Model/H2.lean (frames), Model/H2Reader.lean (octets, read segments) and
+  the monitor of Model/H2Monitor.lean; helper lemmas in Proofs/H2.lean, Proofs/H2Legal.lean,
+  Proofs/H2Reader.lean.  Theorems that merely pin one branch of the model live there, not here.
 -/
 import LtVerif.Proofs.H2
+import LtVerif.Proofs.H2Legal
 import LtVerif.Proofs.H2Reader
 namespace LtVerif.C05
 open LtVerif
 
-/-! ## connection errors are terminal -/
+/-! ## stream legality over whole connection histories -/
 
-/-- nothing is parsed, and hence no stream is created or answered, after an error GOAWAY -/
-theorem c05_conn_error_terminal_recv (c : H2Conn) (f : FrameIn) (h : c.goaway > 0) :
-    recvFrame c f = (c, []) := by
-  simp [recvFrame, h]
+/-- **History-level legality** (RFC 9113 5.1, for ALL streams of a connection at once): whatever
+    batches of frames arrive -- valid or not, before or after the client acknowledged the
+    server's SETTINGS -- and however the scheduler interleaves, the sequence of ALL frames the
+    connection emits is accepted by the monitor `monAll`: on every stream the response HEADERS go
+    out at most once and not after END_STREAM / RST_STREAM, DATA only after HEADERS and not after
+    END_STREAM / RST_STREAM; RST_STREAM, WINDOW_UPDATE and connection frames may come at any
+    time.  Proof: invariant `Inv` (tracked streams have distinct ids <= the highest id seen; a
+    stream not in error has `headersSent` iff its HEADERS are out and nothing final was sent on it;
+    nothing was ever sent on an id above the highest seen), preserved by every receive action
+    (`Act.frame`) and every scheduler pass (`passAux_mon`); after a connection error nothing is
+    emitted. -/
+theorem c05_history_legal (batches : List (List FrameIn)) (preAck : Bool) :
+    ∃ m, monAll {} (runOuts { sentSettings := preAck } batches) = some m :=
+  good_run batches _ {} (Or.inr (inv_init preAck))
 
-/-- after an error GOAWAY the streams are retired without emitting any frame -/
-theorem c05_conn_error_terminal_send (c : H2Conn) (budget : Nat) (h : c.goaway > 0) :
-    (processPass c budget).2 = [] ∧ (processPass c budget).1.streams = [] ∨
-    (processPass c budget) = (c, []) := by
-  unfold processPass
-  by_cases hd : c.dead = true
-  · right; simp [hd]
-  · left; simp [hd, h]
+/-- the same for octets in any read segmentation: a step of octets is a step of the frames the
+    reader extracts (`c05_bytes_refine_frames`), so the frames emitted over a history of byte
+    steps are accepted as well -/
+theorem c05_history_legal_bytes (dec : Bytes → HdrKind) : ∀ (steps : List (List Bytes)) (s : BConn) (m : Mon),
+    Good s.c m →
+    ∃ m', monAll m ((steps.foldl (fun (acc : BConn × List Out) segs =>
+        ((h2StepBytes dec acc.1 segs).1, acc.2 ++ (h2StepBytes dec acc.1 segs).2)) (s, [])).2) = some m' := by
+  -- generalised over the frames already emitted
+  have key : ∀ (steps : List (List Bytes)) (s : BConn) (m0 m : Mon) (pre : List Out),
+      monAll m0 pre = some m → Good s.c m →
+      ∃ m', monAll m0 ((steps.foldl (fun (acc : BConn × List Out) segs =>
+        ((h2StepBytes dec acc.1 segs).1, acc.2 ++ (h2StepBytes dec acc.1 segs).2)) (s, pre)).2) = some m' := by
+    intro steps
+    induction steps with
+    | nil => intro s m0 m pre e _; exact ⟨m, e⟩
+    | cons segs rest ih =>
+      intro s m0 m pre e g
+      simp only [List.foldl_cons]
+      -- one byte step = one frame step
+      have hstep : ∃ fs, (h2StepBytes dec s segs).1.c = (h2Step s.c fs).1 ∧
+          (h2StepBytes dec s segs).2 = (h2Step s.c fs).2 := by
+        cases segs with
+        | nil => exact ⟨[], by simp [h2StepBytes, feedSegs, h2Step, recvBatch], by simp [h2StepBytes, feedSegs, h2Step, recvBatch]⟩
+        | cons x xs =>
+          refine ⟨(readerFeed s.rd (x ++ xs.flatten)).2.flatMap (evFrames dec), ?_, ?_⟩
+          · simp only [h2StepBytes, feedSegs_cons, feedSeg, h2Step]
+          · simp only [h2StepBytes, feedSegs_cons, feedSeg, h2Step]
+      obtain ⟨fs, h1, h2⟩ := hstep
+      obtain ⟨m1, e1, g1⟩ := good_step s.c fs m g
+      refine ih _ m0 m1 _ ?_ (by rw [h1]; exact g1)
+      rw [monAll_append, e, h2]
+      exact e1
+  intro steps s m g
+  exact key steps s m m [] rfl g
 
-/-! ## the receive side only ever answers with control frames -/
+/-- **RST_STREAM is never sent on an idle stream** (RFC 9113 6.4): from a state satisfying the
+    invariant, every RST_STREAM a received frame draws is for a stream id at most the highest id
+    the client has used (or the connection ends in an error; the one RST_STREAM beyond -- a
+    HEADERS frame making its own new stream depend on itself -- comes with that error, and the
+    stream was opened by that very frame) -/
+theorem c05_rst_never_idle (c : H2Conn) (m : Mon) (f : FrameIn) (h : Inv c m) (sid code : Nat)
+    (hm : Out.rst sid code ∈ (recvFrame c f).2) :
+    sid ≤ (recvFrame c f).1.cid ∨ (recvFrame c f).1.goaway > 0 := by
+  rcases (Act.frame c f).rst h.le with hg | hr
+  · exact Or.inr hg
+  · exact Or.inl (hr sid code hm).1
 
 /-- whatever frame arrives in whatever state, the frames sent in direct response are control
     frames (SETTINGS ack, PING ack, WINDOW_UPDATE, RST_STREAM, GOAWAY): response HEADERS and
-    DATA are only produced by the stream scheduler below -/
+    DATA are only produced by the stream scheduler -/
 theorem c05_recv_emits_only_control (c : H2Conn) (f : FrameIn) :
     ∀ o ∈ (recvFrame c f).2, o.isCtl = true :=
   recvFrame_ctl c f
 
-/-! ## per-stream legality of what the scheduler emits -/
+/-! ## outbound frame size: payloads never exceed the peer's SETTINGS_MAX_FRAME_SIZE -/
 
-/-- RFC 9113 §5.1 monitor for the frames a server sends on one stream -/
-inductive Phase | idle | open | ended
-deriving Repr, DecidableEq
+/-- **DATA frames**: every frame a scheduler pass emits carries at most `c.peerMaxFrame` payload
+    octets -- the value of the last SETTINGS_MAX_FRAME_SIZE the client sent (initially 16384),
+    whether it was raised or lowered -/
+theorem c05_data_frames_within_peer_limit (c : H2Conn) (budget : Nat) (h : FsOk c) :
+    ∀ o ∈ (processPass c budget).2, o.payloadLen ≤ c.peerMaxFrame :=
+  processPass_payload c budget (by have := h.1; omega)
 
-def monStep (sid : Nat) : Option Phase → Out → Option Phase
-  | none, _ => none
-  | some p, .headers i _ es =>
-    if i ≠ sid then none else
-    match p with
-    | .idle => some (if es then .ended else .open)
-    | _ => none                        -- a second HEADERS block / HEADERS after END_STREAM
-  | some p, .data i _ es =>
-    if i ≠ sid then none else
-    match p with
-    | .open => some (if es then .ended else .open)
-    | _ => none                        -- DATA before HEADERS or after END_STREAM
-  | some _, .rst i _ => if i ≠ sid then none else some .ended   -- RST_STREAM may always follow
-  | some _, _ => none                  -- the scheduler emits nothing else
+/-- ... the split loses nothing: the DATA frames of `n` octets carry `n` octets in all -/
+theorem c05_data_split_exact (file : Bool) (fsize n : Nat) (hf : fsize > 9) :
+    (dataSplit file fsize n n).sum = n ∧ ∀ x ∈ dataSplit file fsize n n, x ≤ fsize :=
+  ⟨dataSplit_sum file fsize hf n n (Nat.le_refl _), fun x hx => dataSplit_le file fsize n n x hx⟩
 
-def monRun (sid : Nat) (p : Phase) (o : List Out) : Option Phase := o.foldl (monStep sid) (some p)
+/-- **control frames** emitted in direct response have at most 8 payload octets -/
+theorem c05_control_frames_small (c : H2Conn) (f : FrameIn) : ∀ o ∈ (recvFrame c f).2, o.payloadLen ≤ 8 :=
+  fun o ho => ctl_payload o (recvFrame_ctl c f o ho)
 
-def phaseOf (s : Strm) : Phase := if s.headersSent then .open else .idle
+/-- **header blocks** (h2_send_hpack): a block of `n` octets goes out as HEADERS + CONTINUATION
+    frames of at most `fsize` payload octets each that carry exactly the block -/
+theorem c05_header_block_split (fsize n : Nat) (hf : 0 < fsize) :
+    (hpackSplit fsize n n).sum = n ∧ (∀ x ∈ hpackSplit fsize n n, x ≤ fsize) ∧ hpackSplit fsize n n ≠ [] := by
+  refine ⟨hpackSplit_sum fsize n n, fun x hx => hpackSplit_le fsize n n x ?_ hx, ?_⟩
+  · have := Nat.mul_le_mul_right (n + 1) hf
+    rw [Nat.one_mul] at this
+    omega
+  · cases n <;> simp [hpackSplit]
+    split <;> simp
 
-/-- **Stream legality**: a stream's turn emits only frames of that stream, HEADERS first if
-    they were not sent yet, DATA only after HEADERS, END_STREAM at most once and nothing but
-    RST_STREAM after it; a stream that got END_STREAM (or was reset) is retired, a stream
-    that stays has its HEADERS sent and is still open. -/
-theorem c05_stream_turn_legal (cswin : Int) (budget : Nat) (s : Strm) (hne : s.err = false) :
-    ∃ p, monRun s.id (phaseOf s) (strmTurn cswin budget s).2.1 = some p ∧
-      (match (strmTurn cswin budget s).1 with
-       | none => True
-       | some s' => p = .open ∧ s'.headersSent = true ∧ s'.id = s.id ∧ s'.err = false) := by
-  unfold strmTurn
-  simp only [hne, Bool.false_eq_true, if_false]
-  generalize hn : turnAmount cswin budget s = n
-  obtain ⟨id, st, err, swin, reqLen, bodyIn, fudge, status, pending, headersSent, incremental⟩ := s
-  simp only at hne ⊢
-  subst hne
-  by_cases hn0 : n = 0
-  · subst hn0
-    by_cases hp0 : pending = 0
-    · subst hp0
-      cases headersSent <;> cases st <;>
-        simp [sendHdrs, endStream, monRun, monStep, phaseOf, List.foldl]
-    · cases headersSent <;>
-        simp [hp0, sendHdrs, monRun, monStep, phaseOf, List.foldl]
-  · by_cases hp : pending - n = 0
-    · by_cases hp0 : pending = 0
-      · subst hp0
-        exact absurd (by simpa [turnAmount] using hn.symm) hn0
-      · cases headersSent <;> cases st <;>
-          simp [hp, hp0, hn0, sendHdrs, endStream, monRun, monStep, phaseOf, List.foldl]
-    · have hp0 : pending ≠ 0 := by omega
-      cases headersSent <;>
-        simp [hp, hp0, hn0, sendHdrs, monRun, monStep, phaseOf, List.foldl]
-
-/-- a stream in error state is retired with at most an RST_STREAM — never HEADERS or DATA -/
-theorem c05_error_stream_retired (cswin : Int) (budget : Nat) (s : Strm) (he : s.err = true) :
-    (strmTurn cswin budget s).1 = none ∧ ∀ o ∈ (strmTurn cswin budget s).2.1, o.isCtl = true := by
-  unfold strmTurn
-  simp only [he, if_true]
-  refine ⟨trivial, ?_⟩
-  unfold endStream
-  by_cases hc : s.st = .closed
-  · simp [hc]
-  · simp only [hc, he, if_false, if_true]
-    intro o ho
-    simp only [List.mem_singleton] at ho
-    subst ho; rfl
+/-- **the limit the server works with stays in the RFC range over every history** (16384 ..
+    2^24-1): it is only ever set by a SETTINGS_MAX_FRAME_SIZE within that range -/
+theorem c05_peer_frame_size_invariant (batches : List (List FrameIn)) (c : H2Conn) (h : FsOk c) :
+    FsOk (runState c batches) :=
+  runState_fs batches c h
 
 /-! ## acknowledgements -/
 
@@ -165,43 +176,184 @@ theorem c05_settings_window_overflow (c : H2Conn) (v : Nat) (rest : List (Nat ×
     unfold recvSettings
     simp [happ, hout, hpos, hne]
 
-/-- a PING (stream 0, 8 octets, not an ACK) is echoed with ACK; a PING ACK is not answered -/
-theorem c05_ping_echoed (c : H2Conn) : (recvPing c false 0 8).2 = [Out.pingAck] ∧ (recvPing c true 0 8).2 = [] := by
-  simp [recvPing]
+/-- **PING echo**: a PING frame (stream 0, not an ACK) is answered with a PING ack carrying the SAME
+    8 octets -- at frame level and from the octets on the wire -- and a PING ack is not answered -/
+theorem c05_ping_echoed (c : H2Conn) (dec : Bytes → HdrKind) (octets : Bytes) (flags sid : Nat)
+    (hg : ¬ c.goaway > 0) (hd : c.dead = false) (h8 : octets.length = 8) (h0 : u31 sid = 0) :
+    (flagSet flags 1 = false →
+      (recvFrame c (toFrameIn dec ⟨6, flags, sid, octets⟩)).2 = [Out.pingAck octets]) ∧
+    (flagSet flags 1 = true → (recvFrame c (toFrameIn dec ⟨6, flags, sid, octets⟩)).2 = []) := by
+  constructor <;> intro hf <;> simp [toFrameIn, recvFrame, hg, hd, recvPing, h8, h0, hf]
 
-/-! ## frame validation: the RFC-mandated error for each malformed frame -/
+/-! ## connection errors: the RFC-mandated error is VISIBLE and terminal -/
 
-theorem c05_frame_size_errors (c : H2Conn) (sid len x : Nat) :
-    (len ≠ 8 → ∃ r, recvPing c false sid len = sendGoaway c E.frameSize ∧ r = ()) ∧
-    (len ≠ 4 → recvWindowUpdate c sid len x = sendGoaway c E.frameSize) ∧
-    (len ≠ 4 → recvRstStream c sid len = sendGoaway c E.frameSize) ∧
-    (len ≠ 5 → recvPriority c sid len x = sendGoaway c E.frameSize) ∧
-    (len < 8 → recvGoaway c sid len x = sendGoaway c E.frameSize) := by
-  refine ⟨fun h => ⟨(), by simp [recvPing, h], rfl⟩, fun h => by simp [recvWindowUpdate, h],
-          fun h => by simp [recvRstStream, h], fun h => by simp [recvPriority, h],
-          fun h => by simp [recvGoaway, h]⟩
+/-- what the client sees of a connection error: GOAWAY(last stream id, code) among the frames
+    sent in response, and the connection in the terminal error state -/
+def ConnErr (c : H2Conn) (r : Res) (code : Nat) : Prop := Out.goaway c.cid code ∈ r.2 ∧ r.1.goaway > 0
 
-theorem c05_stream_zero_errors (c : H2Conn) (x : Nat) (ps : List (Nat × Nat)) (sid : Nat) (h0 : sid ≠ 0) :
-    recvSettings c false sid ps 0 = sendGoaway c E.protocol ∧
-    recvPing c false sid 8 = sendGoaway c E.protocol ∧
-    recvGoaway c sid 8 x = sendGoaway c E.protocol ∧
-    recvRstStream c 0 4 = sendGoaway c E.protocol ∧
-    recvPriority c 0 5 x = sendGoaway c E.protocol ∧
-    recvData c 0 x none false = sendGoaway c E.protocol := by
-  refine ⟨by simp [recvSettings, h0], by simp [recvPing, h0], by simp [recvGoaway, h0],
-          by simp [recvRstStream], by simp [recvPriority], by simp [recvData]⟩
+/-- **raising a connection error is visible**: while no error GOAWAY is out, `sendGoaway` with an
+    error code emits GOAWAY(last stream id, code) and enters the terminal state -/
+theorem c05_conn_error_visible (c : H2Conn) (code : Nat) (hc : code ≠ 0) (hg : c.goaway ≤ 0) :
+    ConnErr c (sendGoaway c code) code := by
+  have := sendGoaway_observable c code hc hg
+  exact ⟨this.1, this.2.2⟩
 
-/-- stream identifiers: a client stream id must be odd; DATA for an id above every id seen
-    (idle stream) is a connection error; stray CONTINUATION and PUSH_PROMISE are connection errors -/
-theorem c05_stream_id_rules (c : H2Conn) (sid : Nat) (kind : HdrKind) (es : Bool) (len : Nat)
-    (hg : ¬ c.goaway > 0) (hd : c.dead = false) :
-    (sid % 2 = 0 → recvHeaders c sid kind es none false = sendGoaway c E.protocol) ∧
-    (c.cid < sid → recvData c sid len none es = sendGoaway c E.protocol) ∧
-    recvFrame c (.continuation sid) = sendGoaway c E.protocol ∧
-    recvFrame c (.pushPromise sid) = sendGoaway c E.protocol ∧
-    recvFrame c .oversize = sendGoaway c E.frameSize := by
-  refine ⟨fun h => by simp [recvHeaders, h], fun h => by simp [recvData, h],
-          by simp [recvFrame, hg, hd], by simp [recvFrame, hg, hd], by simp [recvFrame, hg, hd]⟩
+private theorem connErr_of_eq {c : H2Conn} {r : Res} {code : Nat} (h : r = sendGoaway c code) (hc : code ≠ 0)
+    (hg : c.goaway ≤ 0) : ConnErr c r code := by
+  rw [h]; exact c05_conn_error_visible c code hc hg
+
+/-- **terminal over histories**: once an error GOAWAY is out, NOTHING is emitted any more,
+    whatever arrives in however many later batches (no later stream is processed) -/
+theorem c05_conn_error_terminal (batches : List (List FrameIn)) (c : H2Conn) (h : c.goaway > 0) :
+    runOuts c batches = [] :=
+  run_term batches c h
+
+/-- frame size errors: wrong fixed length of PING / WINDOW_UPDATE / RST_STREAM / PRIORITY /
+    GOAWAY / PRIORITY_UPDATE, SETTINGS length not a multiple of 6, SETTINGS ack with payload,
+    a frame above the advertised SETTINGS_MAX_FRAME_SIZE => GOAWAY(FRAME_SIZE_ERROR) -/
+theorem c05_frame_size_errors (c : H2Conn) (sid len x : Nat) (o : Bytes) (ps : List (Nat × Nat)) (junk : Nat)
+    (hg : c.goaway ≤ 0) (hd : c.dead = false) :
+    (len ≠ 8 → ConnErr c (recvFrame c (.ping false sid len o)) E.frameSize) ∧
+    (len ≠ 4 → ConnErr c (recvFrame c (.windowUpdate sid len x)) E.frameSize) ∧
+    (len ≠ 4 → ConnErr c (recvFrame c (.rstStream sid len x)) E.frameSize) ∧
+    (len ≠ 5 → ConnErr c (recvFrame c (.priority sid len x)) E.frameSize) ∧
+    (len < 8 → ConnErr c (recvFrame c (.goaway sid len x)) E.frameSize) ∧
+    (len < 4 → ConnErr c (recvFrame c (.priorityUpdate sid len x x)) E.frameSize) ∧
+    (junk ≠ 0 → (applySettings c ps).1.goaway = c.goaway →
+       Out.goaway (applySettings c ps).1.cid E.frameSize ∈ (recvFrame c (.settings false 0 ps junk)).2 ∧
+       (recvFrame c (.settings false 0 ps junk)).1.goaway > 0) ∧
+    ((ps ≠ [] ∨ junk ≠ 0) → ConnErr c (recvFrame c (.settings true 0 ps junk)) E.frameSize) ∧
+    ConnErr c (recvFrame c .oversize) E.frameSize := by
+  have hng : ¬ c.goaway > 0 := by omega
+  refine ⟨fun h => ?_, fun h => ?_, fun h => ?_, fun h => ?_, fun h => ?_, fun h => ?_, fun h hok => ?_, fun h => ?_, ?_⟩
+  · exact connErr_of_eq (by simp [recvFrame, hng, hd, recvPing, h]) (by decide) hg
+  · exact connErr_of_eq (by simp [recvFrame, hng, hd, recvWindowUpdate, h]) (by decide) hg
+  · exact connErr_of_eq (by simp [recvFrame, hng, hd, recvRstStream, h]) (by decide) hg
+  · exact connErr_of_eq (by simp [recvFrame, hng, hd, recvPriority, h]) (by decide) hg
+  · exact connErr_of_eq (by simp [recvFrame, hng, hd, recvGoaway, h]) (by decide) hg
+  · exact connErr_of_eq (by simp [recvFrame, hng, hd, recvPriorityUpdate, h]) (by decide) hg
+  · have hg1 : (applySettings c ps).1.goaway ≤ 0 := by rw [hok]; exact hg
+    have ob := sendGoaway_observable (applySettings c ps).1 E.frameSize (by decide) hg1
+    have hq := applySettings_quiet ps c hg hok
+    simp only [recvFrame, hng, hd, Bool.false_eq_true, or_self, if_false, recvSettings, ne_eq, not_true_eq_false,
+      Bool.not_false, if_true, hok, h, not_false_eq_true, and_self, hq, List.nil_append]
+    refine ⟨?_, ob.2.2⟩
+    simp only [List.mem_append]
+    exact Or.inl ob.1
+  · exact connErr_of_eq (by simp [recvFrame, hng, hd, recvSettings, h]) (by decide) hg
+  · exact connErr_of_eq (by simp [recvFrame, hng, hd]) (by decide) hg
+
+/-- frames on the wrong stream: DATA / HEADERS / RST_STREAM / PRIORITY on stream 0, SETTINGS /
+    PING / GOAWAY / PRIORITY_UPDATE off stream 0, PRIORITY_UPDATE for stream 0
+    => GOAWAY(PROTOCOL_ERROR) -/
+theorem c05_stream_zero_errors (c : H2Conn) (x : Nat) (ps : List (Nat × Nat)) (sid : Nat) (o : Bytes) (kind : HdrKind)
+    (es : Bool) (h0 : sid ≠ 0) (hg : c.goaway ≤ 0) (hd : c.dead = false) :
+    ConnErr c (recvFrame c (.settings false sid ps 0)) E.protocol ∧
+    ConnErr c (recvFrame c (.ping false sid 8 o)) E.protocol ∧
+    ConnErr c (recvFrame c (.goaway sid 8 x)) E.protocol ∧
+    ConnErr c (recvFrame c (.priorityUpdate sid 4 x x)) E.protocol ∧
+    ConnErr c (recvFrame c (.priorityUpdate 0 4 0 x)) E.protocol ∧
+    ConnErr c (recvFrame c (.rstStream 0 4 x)) E.protocol ∧
+    ConnErr c (recvFrame c (.priority 0 5 x)) E.protocol ∧
+    ConnErr c (recvFrame c (.data 0 x none es)) E.protocol ∧
+    ConnErr c (recvFrame c (.headers 0 kind es none false false)) E.protocol := by
+  have hng : ¬ c.goaway > 0 := by omega
+  refine ⟨?_, ?_, ?_, ?_, ?_, ?_, ?_, ?_, ?_⟩
+  · exact connErr_of_eq (by simp [recvFrame, hng, hd, recvSettings, h0]) (by decide) hg
+  · exact connErr_of_eq (by simp [recvFrame, hng, hd, recvPing, h0]) (by decide) hg
+  · exact connErr_of_eq (by simp [recvFrame, hng, hd, recvGoaway, h0]) (by decide) hg
+  · exact connErr_of_eq (by simp [recvFrame, hng, hd, recvPriorityUpdate, h0]) (by decide) hg
+  · exact connErr_of_eq (by simp [recvFrame, hng, hd, recvPriorityUpdate]) (by decide) hg
+  · exact connErr_of_eq (by simp [recvFrame, hng, hd, recvRstStream]) (by decide) hg
+  · exact connErr_of_eq (by simp [recvFrame, hng, hd, recvPriority]) (by decide) hg
+  · exact connErr_of_eq (by simp [recvFrame, hng, hd, recvData]) (by decide) hg
+  · exact connErr_of_eq (by simp [recvFrame, hng, hd, recvHeaders]) (by decide) hg
+
+/-- stream identifiers: an even id in HEADERS; DATA / RST_STREAM on an idle stream (id above every
+    id seen); WINDOW_UPDATE on an idle stream (while no GOAWAY is out); a stray CONTINUATION;
+    PUSH_PROMISE from a client; a header block not continued properly
+    => GOAWAY(PROTOCOL_ERROR) -/
+theorem c05_stream_id_rules (c : H2Conn) (sid : Nat) (kind : HdrKind) (es : Bool) (len x : Nat) (dep : Option Nat)
+    (hg : c.goaway ≤ 0) (hd : c.dead = false) (hle : ∀ s ∈ c.streams, s.id ≤ c.cid) :
+    (sid % 2 = 0 → ConnErr c (recvFrame c (.headers sid kind es dep false false)) E.protocol) ∧
+    (c.cid < sid → ConnErr c (recvFrame c (.data sid len none es)) E.protocol) ∧
+    (c.cid < sid → ConnErr c (recvFrame c (.rstStream sid 4 x)) E.protocol) ∧
+    (c.cid < sid → c.goaway = 0 → x ≠ 0 → ConnErr c (recvFrame c (.windowUpdate sid 4 x)) E.protocol) ∧
+    ConnErr c (recvFrame c (.continuation sid)) E.protocol ∧
+    ConnErr c (recvFrame c (.pushPromise sid)) E.protocol ∧
+    ConnErr c (recvFrame c (.headers sid kind es dep false true)) E.protocol := by
+  have hng : ¬ c.goaway > 0 := by omega
+  -- an id above every id seen is not tracked (`hle` is part of the invariant `Inv`)
+  have hidle : c.cid < sid → findStrm c sid = none := by
+    intro h
+    cases h' : findStrm c sid with
+    | none => rfl
+    | some s => have := findStrm_id h'; have := hle s this.2; omega
+  refine ⟨fun h => ?_, fun h => ?_, fun h => ?_, fun h h1 h2 => ?_, ?_, ?_, ?_⟩
+  · exact connErr_of_eq (by simp [recvFrame, hng, hd, recvHeaders, h]) (by decide) hg
+  · exact connErr_of_eq (by simp [recvFrame, hng, hd, recvData, h]) (by decide) hg
+  · have hs0 : sid ≠ 0 := by omega
+    exact connErr_of_eq (by simp [recvFrame, hng, hd, recvRstStream, hs0, hidle h, h]) (by decide) hg
+  · have hs0 : sid ≠ 0 := by omega
+    exact connErr_of_eq (by simp [recvFrame, hng, hd, recvWindowUpdate, hs0, hidle h, h, h1]) (by decide) hg
+  · exact connErr_of_eq (by simp [recvFrame, hng, hd]) (by decide) hg
+  · exact connErr_of_eq (by simp [recvFrame, hng, hd]) (by decide) hg
+  · exact connErr_of_eq (by simp [recvFrame, hng, hd]) (by decide) hg
+
+/-- SETTINGS values RFC 9113 6.5.2 forbids: ENABLE_PUSH other than 0/1 => PROTOCOL_ERROR,
+    INITIAL_WINDOW_SIZE above 2^31-1 => FLOW_CONTROL_ERROR, MAX_FRAME_SIZE outside
+    [2^14, 2^24-1] => PROTOCOL_ERROR (no ACK is sent) -/
+theorem c05_settings_value_errors (c : H2Conn) (v : Nat) (rest : List (Nat × Nat)) (hg : c.goaway ≤ 0) (hd : c.dead = false) :
+    (v > 1 → ConnErr c (recvFrame c (.settings false 0 ((2, v) :: rest) 0)) E.protocol) ∧
+    ((v : Int) > int32Max → ConnErr c (recvFrame c (.settings false 0 ((4, v) :: rest) 0)) E.flowControl) ∧
+    ((v < 16384 ∨ v > 16777215) → ConnErr c (recvFrame c (.settings false 0 ((5, v) :: rest) 0)) E.protocol) := by
+  have hng : ¬ c.goaway > 0 := by omega
+  have fin : ∀ (code : Nat) (ps : List (Nat × Nat)), code ≠ 0 → applySettings c ps = sendGoaway c code →
+      ConnErr c (recvFrame c (.settings false 0 ps 0)) code := by
+    intro code ps hc happ
+    have ob := sendGoaway_observable c code hc hg
+    have hne : ¬ (sendGoaway c code).1.goaway = c.goaway := by rw [ob.2.1]; omega
+    have hpos : ¬ (sendGoaway c code).1.goaway ≤ 0 := by omega
+    refine ⟨?_, ?_⟩
+    · simp only [recvFrame, hng, hd, Bool.false_eq_true, or_self, if_false, recvSettings, ne_eq, not_true_eq_false,
+        Bool.not_false, if_true, happ, hne, false_and, List.append_nil, hpos]
+      exact ob.1
+    · simp only [recvFrame, hng, hd, Bool.false_eq_true, or_self, if_false, recvSettings, ne_eq, not_true_eq_false,
+        Bool.not_false, if_true, happ, hne, false_and]
+      exact ob.2.2
+  refine ⟨fun h => fin _ _ (by decide) (by simp [applySettings, h]), fun h => fin _ _ (by decide) (by simp [applySettings, h]),
+          fun h => fin _ _ (by decide) ?_⟩
+  simp only [applySettings]
+  have : ¬ ((5 : Nat) = 2 ∧ v > 1) := by omega
+  simp [this, h]
+
+/-- WINDOW_UPDATE on stream 0: increment 0 => PROTOCOL_ERROR, window above 2^31-1 =>
+    FLOW_CONTROL_ERROR; on a stream they are stream errors (RST_STREAM), see `client_oracle` -/
+theorem c05_window_update_errors (c : H2Conn) (inc : Nat) (hg : c.goaway ≤ 0) (hd : c.dead = false) :
+    ConnErr c (recvFrame c (.windowUpdate 0 4 0)) E.protocol ∧
+    (inc ≠ 0 → c.swin > int32Max - inc → ConnErr c (recvFrame c (.windowUpdate 0 4 inc)) E.flowControl) := by
+  have hng : ¬ c.goaway > 0 := by omega
+  refine ⟨?_, fun h1 h2 => ?_⟩
+  · exact connErr_of_eq (by simp [recvFrame, hng, hd, recvWindowUpdate]) (by decide) hg
+  · exact connErr_of_eq (by simp [recvFrame, hng, hd, recvWindowUpdate, h1, h2]) (by decide) hg
+
+/-- a header block that does not decode (HPACK) on a new stream => GOAWAY(COMPRESSION_ERROR) whose
+    last-stream-id is that stream -/
+theorem c05_hpack_error (c : H2Conn) (sid : Nat) (es : Bool) (hodd : sid % 2 = 1) (hnew : sid > c.cid)
+    (hg : c.goaway = 0) (hd : c.dead = false) (hfree : c.streams.length < Extracted.h2MaxStreams) :
+    Out.goaway sid E.compression ∈ (recvFrame c (.headers sid .hpackBad es none false false)).2 ∧
+    (recvFrame c (.headers sid .hpackBad es none false false)).1.goaway > 0 := by
+  have hng : ¬ c.goaway > 0 := by omega
+  have h1 : ¬ sid % 2 = 0 := by omega
+  have h2 : ¬ sid ≤ c.cid := by omega
+  have h3 : ¬ c.streams.length ≥ Extracted.h2MaxStreams := by omega
+  have ob := sendGoaway_observable (addStrm c (mkStrm c sid es 0 0 (-1) false false)) E.compression (by decide)
+    (by simp [addStrm, hg])
+  have hcid : (addStrm c (mkStrm c sid es 0 0 (-1) false false)).cid = sid := rfl
+  rw [hcid] at ob
+  simp only [recvFrame, hng, hd, Bool.false_eq_true, or_self, if_false, recvHeaders, h1, h2, hg, ne_eq,
+    not_true_eq_false, h3, newStream, reduceCtorEq, and_false]
+  exact ⟨ob.1, ob.2.2⟩
 
 /-- **Not a data sink, and no stall**: DATA (with payload) for a stream the server no longer
     tracks, outside the recently-half-closed window, draws ONE graceful GOAWAY(NO_ERROR) and ends
@@ -218,21 +370,52 @@ theorem c05_data_sink_goaway_once (c : H2Conn) (sid len : Nat) (es : Bool)
   · simp [recvData, h0, hc', hn, hr, hl, hg]
   · simp [recvData, h0, hc', hn, hr, hl, hg]
 
-/-- **Concurrency**: a new stream is admitted only while fewer than the advertised number of
-    streams (SETTINGS_MAX_CONCURRENT_STREAMS, read back from the code) are active; otherwise it
-    is refused with RST_STREAM(REFUSED_STREAM) and no stream is created -/
+/-! ## concurrency -/
+
+/-- **Concurrency**: once the client has acknowledged the server's SETTINGS, a HEADERS frame for a
+    new stream while the advertised number of streams are active (and none is about to be retired)
+    is answered RST_STREAM(REFUSED_STREAM), and no stream is created -/
 theorem c05_concurrency_refused (c : H2Conn) (sid : Nat) (kind : HdrKind) (es : Bool)
-    (hodd : sid % 2 = 1) (hnew : sid > c.cid) (hg : c.goaway = 0)
+    (hodd : sid % 2 = 1) (hnew : sid > c.cid) (hg : c.goaway = 0) (hack : c.sentSettings = false)
     (hfull : c.streams.length ≥ Extracted.h2MaxStreams) :
-    recvHeaders c sid kind es none false = (refuseStream c sid).andThen discardHeaders ∧
-    Out.rst sid E.refused ∈ (recvHeaders c sid kind es none false).2 := by
+    Out.rst sid E.refused ∈ (recvHeaders c sid kind es none false).2 ∧
+    (recvHeaders c sid kind es none false).1.streams.length = c.streams.length := by
   have h1 : ¬ sid % 2 = 0 := by omega
   have h2 : ¬ sid ≤ c.cid := by omega
   have heq : recvHeaders c sid kind es none false = (refuseStream c sid).andThen discardHeaders := by
     simp [recvHeaders, h1, h2, hg, hfull]
-  refine ⟨heq, ?_⟩
   rw [heq]
-  simp [Res.andThen, refuseStream]
+  refine ⟨?_, ?_⟩
+  · simp [Res.andThen, refuseStream, hack]
+  · rw [andThen_len _ _ discardHeaders_len, refuseStream_len]
+
+/-- ... before that acknowledgement (the client cannot know the limit yet): more than 100 streams
+    (id above 200) => GOAWAY(ENHANCE_YOUR_CALM); otherwise the HEADERS frame is either left in the
+    read queue while a stream can still make progress (`needsSlot`, windows of at least 2048
+    octets -- below that nothing would be sent and the frames behind would never be read), or
+    refused as above -/
+theorem c05_concurrency_before_ack (c : H2Conn) (sid : Nat) (kind : HdrKind) (es : Bool)
+    (hodd : sid % 2 = 1) (hnew : sid > c.cid) (hg : c.goaway = 0) (hd : c.dead = false) (hpre : c.sentSettings = true)
+    (hfull : c.streams.length ≥ Extracted.h2MaxStreams) :
+    (sid > 200 → ConnErr c (recvFrame c (.headers sid kind es none false false)) E.enhanceCalm) ∧
+    (sid ≤ 200 → needsSlot c (.headers sid kind es none false false) = false →
+       Out.rst sid E.refused ∈ (recvFrame c (.headers sid kind es none false false)).2) ∧
+    (sid ≤ 200 → (c.streams.any fun s => s.reqLen = (s.bodyIn : Int) && s.swin ≥ 2048 && c.swin ≥ 2048) = true →
+       needsSlot c (.headers sid kind es none false false) = true) := by
+  have hng : ¬ c.goaway > 0 := by omega
+  have h1 : ¬ sid % 2 = 0 := by omega
+  have h2 : ¬ sid ≤ c.cid := by omega
+  refine ⟨fun h => ?_, fun h _ => ?_, fun h hany => ?_⟩
+  · have ob := sendGoaway_observable c E.enhanceCalm (by decide) (by omega)
+    have hdis : discardHeaders (sendGoaway c E.enhanceCalm).1 = ((sendGoaway c E.enhanceCalm).1, []) := by
+      simp [discardHeaders, ob.2.2]
+    simp only [ConnErr, recvFrame, hng, hd, Bool.false_eq_true, or_self, if_false, recvHeaders, h1, h2, hg, ne_eq,
+      not_true_eq_false, hfull, ge_iff_le, if_true, Res.andThen, refuseStream, hpre, h, and_self, hdis, List.append_nil]
+    exact ⟨ob.1, ob.2.2⟩
+  · have hn : ¬ sid > 200 := by omega
+    simp [recvFrame, hng, hd, recvHeaders, h1, h2, hg, hfull, Res.andThen, refuseStream, hpre, hn]
+  · simp only [needsSlot, hg, decide_true, hnew, hodd, Bool.not_false, Bool.and_true, Bool.true_and, ne_eq,
+      reduceCtorEq, not_false_eq_true, hfull, ge_iff_le, hpre, h, hany, Bool.or_true]
 
 /-- **Concurrency, for every reachable state**: whatever batches of frames arrive and
     however the scheduler runs, the server never tracks more streams than it advertised -/
@@ -252,6 +435,55 @@ theorem c05_concurrency_invariant : ∀ (batches : List (List FrameIn)) (c : H2C
 
 theorem c05_advertised_concurrency : Extracted.h2MaxStreams = Extracted.h2AdvMaxConcurrent := by decide
 
+
+/-! non-vacuity -/
+def exGet (sid body : Nat) : FrameIn := .headers sid (.request 200 body 0 false false) true none false false
+example : (h2Step {} [exGet 1 10]).2 = [.headers 1 200 false, .data 1 10 false, .data 1 0 true] := by decide
+example : (h2Step {} [exGet 1 10, .data 1 3 none true]).2 = [.rst 1 E.streamClosed, .windowUpdate 0 16384] := by decide
+-- a history with noise: accepted by the monitor, and the monitor is not trivial (it rejects DATA before HEADERS)
+example : (monAll {} (runOuts {} [[.priority 1 5 1, exGet 1 10], [.ping false 0 8 [1,2,3,4,5,6,7,8], exGet 3 0],
+                                  [.data 1 3 none true, .windowUpdate 3 4 0]])).isSome = true := by decide
+example : monAll {} [.data 1 10 false] = none ∧ monAll {} [.headers 1 200 true, .data 1 0 true] = none ∧
+    monAll {} [.headers 1 200 false, .rst 1 0, .data 1 1 false] = none := by decide
+-- PRIORITY making the idle stream 1 depend on itself: no RST_STREAM; the stream is served afterwards
+example : (h2Step {} [.priority 1 5 1, exGet 1 10]).2 = [.headers 1 200 false, .data 1 10 false, .data 1 0 true] := by decide
+-- outbound frame size: 100000 octets in frames of at most 16384 (memory) / 16375 (file), and of 32750 once the client allows 32768
+example : (h2Step {} [exGet 1 100000]).2 =
+    [.headers 1 200 false, .data 1 16384 false, .data 1 16366 false, .data 1 16384 false, .data 1 16366 false] := by decide
+example : (h2Step {} [.settings false 0 [(5, 32768)] 0, exGet 1 100000]).2 =
+    [.settingsAck, .headers 1 200 false, .data 1 32750 false, .data 1 32750 false] := by decide
+example : dataSplit true 16384 32750 32750 = [16375, 16375] ∧ hpackSplit 16384 25035 25035 = [16384, 8651] := by decide
+example : FsOk {} := ⟨by decide, by decide⟩
+-- PING: the octets come back
+example : (recvFrame {} (.ping false 0 8 [1,2,3,4,5,6,7,8])).2 = [.pingAck [1,2,3,4,5,6,7,8]] := by decide
+example : flagSet 0 1 = false ∧ u31 0 = 0 := by decide
+-- stream 1 answered and forgotten, stream 3 blocked by the connection window; then in one read two DATA
+-- frames for stream 1, the WINDOW_UPDATEs stream 3 waits for, and a PING: one GOAWAY, PING acked, stream 3 completes
+example : (h2Step (h2Step {} [exGet 1 10, exGet 3 100000]).1
+             [.data 1 3 none false, .data 1 3 none false, .windowUpdate 3 4 100000, .windowUpdate 0 4 100000,
+              .ping false 0 8 []]).2 =
+    [.goaway 3 0, .pingAck [], .data 3 16384 false, .data 3 16366 false, .data 3 1750 false, .data 3 0 true] := by decide
+/-- a stream with a pending response whose window the client raised to 2^31-1 -/
+def exFull : H2Conn :=
+  { streams := [{ id := 1, st := .hcRemote, swin := 2147483647, reqLen := 0, status := 200, pending := 100000,
+                  headersSent := true }], cid := 1 }
+example : exFull.goaway = 0 ∧
+    (exFull.streams.any fun s => s.live && winOverflows s.swin (((65536 : Nat) : Int) - exFull.initWin)) = true := by decide
+example : (recvFrame exFull (.settings false 0 [(4, 65536)] 0)).2 = [.goaway 1 E.flowControl] := by decide
+example : (recvFrame exFull (.settings false 0 [(4, 65535)] 0)).2 = [.settingsAck] := by decide
+example : (applySettings exFull [(4, 65535)]).1.goaway = exFull.goaway ∧ exFull.goaway ≤ 0 := by decide
+/-- eight streams blocked by a zero window: the advertised limit is reached -/
+def exEight : H2Conn :=
+  (h2Step {} ([.settings false 0 [(4, 0)] 0] ++ (List.range 8).map fun i => exGet (2 * i + 1) 1000)).1
+example : exEight.streams.length = Extracted.h2MaxStreams ∧ exEight.goaway = 0 ∧ exEight.cid = 15 ∧
+    exEight.sentSettings = false := by decide +kernel
+example : (recvFrame exEight (exGet 17 10)).2 = [.rst 17 E.refused] := by decide +kernel
+-- the same burst before the SETTINGS ack: stream 203 => GOAWAY(ENHANCE_YOUR_CALM); stream 17: windows are 0 => refused
+example : (recvFrame { exEight with sentSettings := true } (exGet 203 10)).2 = [.goaway 15 E.enhanceCalm] := by decide +kernel
+example : (recvFrame { exEight with sentSettings := true } (exGet 17 10)).2 = [.rst 17 E.refused] := by decide +kernel
+example : (exEight.streams.any fun s => s.reqLen = (s.bodyIn : Int) && s.swin ≥ 2048 && exEight.swin ≥ 2048) = false := by decide +kernel
+-- PRIORITY_UPDATE: stream 5 gets urgency 1 and moves to the front
+example : ((recvFrame exEight (.priorityUpdate 0 7 5 3)).1.streams.map (·.id)) = [5, 1, 3, 7, 9, 11, 13, 15] := by decide +kernel
 
 /-! ## octets: every split of the byte stream across reads -/
 
@@ -399,8 +631,6 @@ theorem c05_reader_padding (dec : Bytes → HdrKind) (c : H2Conn) (f : RawFrame)
   · have hnlt : ¬ f.payload.length < 1 + be (slice f.payload 0 1) := by omega
     simp [toFrameIn, ht, hdrFrame, hpad, hpr, hnlt]
 
-/-! ## octets: the connection-level statements -/
-
 /-- **The byte-level connection refines the frame-level one**: a step fed as ANY non-empty list
     of read segments is the frame-level step `h2Step` on the frames (and reader errors) that the
     reader extracts from the concatenated octets.  Every frame-level theorem above therefore
@@ -412,8 +642,15 @@ theorem c05_bytes_refine_frames (dec : Bytes → HdrKind) (s : BConn) (x : Bytes
        (h2Step s.c ((readerFeed s.rd (x ++ xs.flatten)).2.flatMap (evFrames dec))).2) := by
   simp only [h2StepBytes, feedSegs_cons, feedSeg, h2Step]
 
-/-- **Outcome independent of the read segmentation**: two ways of cutting the same octets of a
-    step into reads give the same connection state and the same emitted frames -/
+/-- **Outcome independent of the read segmentation, for a step without scheduling between its
+    reads**: two ways of cutting the same octets of ONE step (`h2StepBytes`: all reads of the step,
+    then the scheduler) give the same state and the same frames.  The real server runs the
+    scheduler after every read; across reads that interleave with scheduling the outcome
+    legitimately depends on timing (a stream answered in between is gone), and what holds there is
+    `c05_reader_segmentation` (the frames the reader delivers do not depend on the cuts) together
+    with the theorems over ARBITRARY step histories (`c05_history_legal_bytes`,
+    `c05_concurrency_invariant_bytes`, `c05_conn_error_terminal_bytes`), which contain every such
+    schedule: a read followed by scheduling is a step of one segment. -/
 theorem c05_step_segmentation (dec : Bytes → HdrKind) (s : BConn) (x y : Bytes) (xs ys : List Bytes)
     (h : (x :: xs).flatten = (y :: ys).flatten) :
     h2StepBytes dec s (x :: xs) = h2StepBytes dec s (y :: ys) := by
@@ -437,49 +674,30 @@ theorem c05_concurrency_invariant_bytes (dec : Bytes → HdrKind) :
     simp only [h2StepBytes]
     exact Nat.le_trans (processQuiesce_len_le _ _) (feedSegs_len_le dec segs s h)
 
-/-- **Connection errors are terminal for octets too**: once an error GOAWAY is out, no octet has
-    any effect (no frame is emitted, the connection state does not change); and a reader-level
-    error (FRAME_SIZE_ERROR / CONTINUATION errors) stops the reader for good -/
-theorem c05_conn_error_terminal_bytes (dec : Bytes → HdrKind) (s : BConn) (seg : Bytes)
-    (hg : s.c.goaway > 0) (hstop : s.c.stop = false) :
-    (feedSeg dec s seg).2 = [] ∧ (feedSeg dec s seg).1.c = s.c := by
-  have key : ∀ (fs : List FrameIn), recvBatch s.c fs = (s.c, []) := by
-    intro fs
-    induction fs with
-    | nil => rfl
-    | cons f fs ih =>
-      have hns : needsSlot s.c f = false := by
-        cases f <;> simp [needsSlot]
-        omega
-      simp [recvBatch, preSlot, hns, c05_conn_error_terminal_recv s.c f hg, postStop, hstop, ih]
-  simp [feedSeg, key]
-
-/-! non-vacuity -/
-example : (h2Step {} [.headers 1 (.request 200 10 0 false) true none false false]).2 =
-    [.headers 1 200 false, .data 1 10 false, .data 1 0 true] := by decide
-example : (h2Step {} [.headers 1 (.request 200 10 0 false) true none false false,
-                      .data 1 3 none true]).2 = [.rst 1 E.streamClosed, .windowUpdate 0 16384] := by decide
-example : (recvFrame {} (.ping false 0 8)).2 = [.pingAck] := by decide
--- stream 1 answered and forgotten, stream 3 blocked by the connection window; then in one read two DATA
--- frames for stream 1, the WINDOW_UPDATEs stream 3 waits for, and a PING: one GOAWAY, PING acked, stream 3 completes
-example : (h2Step (h2Step {} [.headers 1 (.request 200 10 0 false) true none false false,
-                              .headers 3 (.request 200 100000 0 false) true none false false]).1
-             [.data 1 3 none false, .data 1 3 none false, .windowUpdate 3 4 100000, .windowUpdate 0 4 100000,
-              .ping false 0 8]).2 =
-    [.goaway 3 0, .pingAck, .data 3 32750 false, .data 3 1750 false, .data 3 0 true] := by decide
-/-- a stream with a pending response whose window the client raised to 2^31-1 -/
-def exFull : H2Conn :=
-  { streams := [{ id := 1, st := .hcRemote, swin := 2147483647, reqLen := 0, status := 200, pending := 100000,
-                  headersSent := true }], cid := 1 }
-example : exFull.goaway = 0 ∧
-    (exFull.streams.any fun s => s.live && winOverflows s.swin (((65536 : Nat) : Int) - exFull.initWin)) = true := by decide
-example : (recvFrame exFull (.settings false 0 [(4, 65536)] 0)).2 = [.goaway 1 E.flowControl] := by decide
-example : (recvFrame exFull (.settings false 0 [(4, 65535)] 0)).2 = [.settingsAck] := by decide
-example : (applySettings exFull [(4, 65535)]).1.goaway = exFull.goaway ∧ exFull.goaway ≤ 0 := by decide
+/-- **Connection errors are terminal for octets too**: once an error GOAWAY is out, no octet in
+    no later step has any effect on what is emitted -/
+theorem c05_conn_error_terminal_bytes (dec : Bytes → HdrKind) (s : BConn) (segs : List Bytes)
+    (hg : s.c.goaway > 0) :
+    (h2StepBytes dec s segs).2 = [] ∧ (h2StepBytes dec s segs).1.c.goaway > 0 := by
+  have hfeed : ∀ (segs : List Bytes) (s : BConn), s.c.goaway > 0 →
+      (feedSegs dec s segs).2 = [] ∧ (feedSegs dec s segs).1.c.goaway > 0 := by
+    intro segs
+    induction segs with
+    | nil => intro s h; exact ⟨rfl, h⟩
+    | cons x xs ih =>
+      intro s h
+      have h1 := recvBatch_term ((readerFeed s.rd x).2.flatMap (evFrames dec)) s.c h
+      have h2 := ih (feedSeg dec s x).1 (by simpa [feedSeg] using h1.2)
+      refine ⟨?_, h2.2⟩
+      simp only [feedSegs, h2.1, List.append_nil]
+      simpa [feedSeg] using h1.1
+  have h1 := hfeed segs s hg
+  have h2 := quiesce_term 100000 _ h1.2
+  exact ⟨by simp [h2StepBytes, h1.1, h2.1], by simpa [h2StepBytes] using h2.2⟩
 
 /-! non-vacuity, octets -/
 def exPing : Bytes := [0,0,8, 6, 0, 0,0,0,0, 1,2,3,4,5,6,7,8]
-def exDec : Bytes → HdrKind := fun b => if b = [0x82] then .request 200 10 0 false else .hpackBad
+def exDec : Bytes → HdrKind := fun b => if b = [0x82] then .request 200 10 0 false false else .hpackBad
 /-- HEADERS(stream 1, END_STREAM) without END_HEADERS, fragment [], + CONTINUATION(END_HEADERS) [0x82] -/
 def exReq : Bytes := [0,0,0, 1, 1, 0,0,0,1] ++ [0,0,1, 9, 4, 0,0,0,1, 0x82]
 
@@ -497,7 +715,7 @@ example : parseOne readerMaxFrame (serialize ⟨1, 1, 1, []⟩ ++ exPing) = .err
 -- padded DATA: Pad Length 9 in a 5-octet payload; Pad Length 2 in a 5-octet payload
 example : flagSet 8 8 = true ∧ be (slice [9,1,2,3,4] 0 1) ≥ ([9,1,2,3,4] : Bytes).length := by decide
 example : toFrameIn exDec ⟨0, 9, 1, [2,100,100,0,0]⟩ = .data 1 5 (some 2) true := by decide
-example : toFrameIn exDec ⟨1, 0x0d, 1, [2,0x82,0,0]⟩ = .headers 1 (.request 200 10 0 false) true none false false := by decide
+example : toFrameIn exDec ⟨1, 0x0d, 1, [2,0x82,0,0]⟩ = .headers 1 (.request 200 10 0 false false) true none false false := by decide
 -- a whole request arriving in three reads cut inside the frame headers
 example : (h2StepBytes exDec {} [exReq.take 4, (exReq.drop 4).take 9, exReq.drop 13]).2 =
     [.headers 1 200 false, .data 1 10 false, .data 1 0 true] := by decide
